@@ -40,7 +40,9 @@ BODY_TAILS = ["pass", "return None", "return 5", "return a", "return (a)", "retu
               "return 'x'.join", "return 'x'", "return -1", "return -x", "return not a", "return ~5", "return -'s'",
               "return np.empty(0), np.empty(0)", "return f(a)", "return [a]", "return a[0]", "return", "return a + 1",
               "return 2.5", "return True", "return {'a': 1}", "x = 1\n    return x", "return 5[0]", "return -None", "return not True", "return not 0",
-              "return not None", "return not 'x'", "return not 2.5", "return ~True"]
+              "return not None", "return not 'x'", "return not 2.5", "return ~True",
+              # bodies WITHOUT a final top-level return (a return nested deeper must not be taken for it)
+              "x = 2", "print(a)", "if a:\n        return 9\n    x = 3", "for q in ():\n        return q", "pass"]
 RET_ANNS = [None, None, None, "int", "str", "Tuple[int, str]", "np.ndarray", "'C'", "Optional[int]", "None"]
 PROSE = ["the a", "the value.", "name of thing", "Optional thing", "(Optional) setting", "number of items.",
          "path to\n        the file", "x  y ", "learning rate", "", "Optional[int] wrapper"]
